@@ -480,10 +480,14 @@ def finish(rep, rule, trusted_base, assumptions, checker_cmd, level='proof'):
     wall = time.time() - rep.t0
     lines = []
     exit_code = 0
+    per_finding = {}
     for finding, what in rep.known_hit:
-        lines.append('KNOWN-FINDING: property=%s %s (%s)' % (rep.prop, finding['id'] + ' ' + finding['what'][:160], what))
-    seen = set()
-    lines = [l for l in lines if not (l in seen or seen.add(l))]
+        per_finding.setdefault(finding['id'], (finding, []))[1].append(what)
+    for fid, (finding, whats) in per_finding.items():
+        # one line per listed finding: the first witness of this run, and how many inputs hit it
+        lines.append('KNOWN-FINDING: property=%s %s (%s)%s' % (
+            rep.prop, fid + ' ' + finding['what'][:160], whats[0],
+            ' [%d inputs of this run]' % len(whats) if len(whats) > 1 else ''))
     n = 0
     for found_input, replay in rep.violations[:20]:
         replay = dict(replay)
